@@ -154,6 +154,15 @@ def rule_destroy(ctx, rep):
             if own_edges and fps and all(not vget(p.vec, "dec") and _gate_before_free(p) for p in fps) and any(F.handle_name(x) in ("Arc", "UniqueArc") for x in b.get("inputs", [])):
                 rep.ok("R-DESTROY", ik, "S3 in place", cfg=tag)
                 continue
+            # S1 in place: the function decrements the count itself and frees only on paths that come after that decrement
+            # (`Arc::into_inner`: `if count.fetch_sub(1, Release) != 1 { return None } .. free`); that the decrement's result is
+            # compared with 1 and the free sits on the `== 1` side is the dec-gate instance below (it covers every body with a
+            # direct decrement), the ordering C02 R-ORD-2
+            if fps is not None:
+                frees_here = [p for p in A.paths.get(key, []) if vget(p.vec, "free_raw") or vget(p.vec, "free_s1")]
+                if frees_here and all(not vget(p.vec, "free_raw") and vget(p.vec, "dec") == 1 for p in frees_here) and any(b0["key"] == key for b0, _u, _ps in balance.release_units(F, E)):
+                    rep.ok("R-DESTROY", ik, "S1 in place", cfg=tag)
+                    continue
             # S1: the body must be private and every caller must reach it only after a decrement that observed 1
             if balance.is_api(F, b):
                 rep.bad("R-DESTROY", ik, "a function reachable from outside the crate frees the block directly (%s) without being typed as sole owner" % what, F.loc(b, t["span"]), tag)
